@@ -23,7 +23,7 @@ MAP = {
     "gaussian_toolbox/experimental/misc.py": ["C20", "C16"],
     "gaussian_toolbox/utils/linalg.py": ["C05", "C07", "C01"],
 }
-OPS = [(" + ", " - "), (" - ", " + "), ("0.5", "0.25"), ("2.0", "3.0"), (" * ", " / "), ("[:, None]", "[None]")]
+OPS = [(" + ", " - "), (" - ", " + "), ("0.5", "0.25"), ("2.0", "3.0"), (" * ", " / "), ("[:, None]", "[None]"), (" / ", " * "), ("[:, 0]", "[:, -1]"), ("[0]", "[-1]"), ("= -", "= "), ("axis=1", "axis=0")]
 
 
 def functions():
@@ -62,7 +62,7 @@ def touched(funcs):
     return hit
 
 
-def mutate(rel, node):
+def mutate(rel, node, nth=1):
     lines = open(os.path.join(REPO, rel)).read().split("\n")
     body = node.body
     start = body[0].end_lineno + 1 if (isinstance(body[0], ast.Expr) and isinstance(getattr(body[0], "value", None), ast.Constant) and isinstance(body[0].value.value, str)) else body[0].lineno
@@ -85,13 +85,18 @@ def mutate(rel, node):
                 if old not in code:
                     continue
                 lines[ln - 1] = code.replace(old, new, 1) + t[len(code):]
-            return "\n".join(lines), ln, old, new, t.strip()
+            nth -= 1
+            if nth == 0:
+                return "\n".join(lines), ln, old, new, t.strip()
+            lines[ln - 1] = t  # undo, look for the next applicable (operator, line)
     return None
 
 
 def main():
     maxn = int(sys.argv[sys.argv.index("--max") + 1]) if "--max" in sys.argv else 1000
     only = sys.argv[sys.argv.index("--only") + 1] if "--only" in sys.argv else None
+    nth = int(sys.argv[sys.argv.index("--nth") + 1]) if "--nth" in sys.argv else 1
+    include_touched = "--all" in sys.argv
     funcs = functions()
     hit = touched(funcs)
     os.makedirs(VERIF + "/mutants/auto", exist_ok=True)
@@ -102,7 +107,7 @@ def main():
             done.add(json.loads(l)["name"])
     todo = []
     for (rel, name), node in sorted(funcs.items()):
-        if (rel, name) in hit or name.split(".")[-1].startswith("__") or node.end_lineno - node.lineno < 5:
+        if ((rel, name) in hit and not include_touched) or name.split(".")[-1].startswith("__") or node.end_lineno - node.lineno < 5:
             continue
         if only and only not in rel + ":" + name:
             continue
@@ -112,10 +117,10 @@ def main():
     print("untouched functions to mutate:", len(todo), flush=True)
     n = 0
     for rel, name, node in todo:
-        mname = "auto_" + os.path.basename(rel)[:-3] + "_" + name.replace(".", "_")
+        mname = "auto_" + os.path.basename(rel)[:-3] + "_" + name.replace(".", "_") + ("" if nth == 1 else "_n%d" % nth)
         if mname in done:
             continue
-        m = mutate(rel, node)
+        m = mutate(rel, node, nth)
         if m is None:
             continue
         if n >= maxn:
